@@ -3,6 +3,7 @@ package main
 import (
 	"go/ast"
 	"go/token"
+	"strings"
 
 	"golang.org/x/tools/go/cfg"
 )
@@ -317,4 +318,65 @@ func normNot(a Atom) Atom {
 		a.E = e
 		return a
 	}
+}
+
+// unwrapW: the canonical text of `fmt.Errorf("…%w…", a, b, err)` stands for the wrapped operand: a failure handed on with
+// context added is still that failure for every caller that tests `err != nil` (and for errors.Is/As). Anything else is
+// returned unchanged.
+func unwrapW(s string) string {
+	orig := s
+	if i := strings.LastIndex(s, ")#"); i >= 0 && strings.Trim(s[i+2:], "0123456789") == "" {
+		s = s[:i+1] // call-instance suffix of the symbolic engine
+	}
+	if !strings.HasPrefix(s, "fmt.Errorf(\"") || !strings.HasSuffix(s, ")") {
+		return orig
+	}
+	body := s[len("fmt.Errorf(") : len(s)-1]
+	// split at top-level commas, honouring quotes and brackets
+	var parts []string
+	depth, inStr, start := 0, false, 0
+	for i := 0; i < len(body); i++ {
+		ch := body[i]
+		switch {
+		case inStr:
+			if ch == '\\' {
+				i++
+			} else if ch == '"' {
+				inStr = false
+			}
+		case ch == '"':
+			inStr = true
+		case ch == '(' || ch == '[' || ch == '{':
+			depth++
+		case ch == ')' || ch == ']' || ch == '}':
+			depth--
+		case ch == ',' && depth == 0:
+			parts = append(parts, strings.TrimSpace(body[start:i]))
+			start = i + 1
+		}
+	}
+	parts = append(parts, strings.TrimSpace(body[start:]))
+	if len(parts) < 2 || strings.Count(parts[0], "%w") != 1 {
+		return orig
+	}
+	// index of the operand that %w consumes = number of verbs before it
+	f := parts[0]
+	k := 0
+	for i := 0; i+1 < len(f); i++ {
+		if f[i] != '%' {
+			continue
+		}
+		if f[i+1] == '%' {
+			i++
+			continue
+		}
+		if f[i+1] == 'w' {
+			break
+		}
+		k++
+	}
+	if 1+k >= len(parts) {
+		return orig
+	}
+	return parts[1+k]
 }
